@@ -109,7 +109,7 @@ func (m *Machine) tick() int64 { m.clock += 1000; return m.clock }
 
 func (m *Machine) refreshTomb(e *model.Edge) {
 	p, ok := e.Points[model.IdentOf(data.PointTypeTombstone, "")]
-	e.Tomb = ok && p.Value == 1
+	e.Tomb = ok && math.Mod(p.Value, 2) != 0 // odd = deleted (an edge deleted, restored and deleted again carries 3)
 }
 
 // rooted node ids (have an edge as down), in creation order
@@ -674,6 +674,11 @@ func (m *Machine) Actions(check func(t *rapid.T)) map[string]func(*rapid.T) {
 			}
 			e := rapid.SampledFrom(es).Draw(t, "edge")
 			v := float64(rapid.IntRange(0, 1).Draw(t, "deleted"))
+			if rapid.IntRange(0, 2).Draw(t, "tombCount") == 0 {
+				// counted tombstones: 3, 5 read as deleted, 2, 4 as restored
+				v += float64(2 * rapid.IntRange(1, 2).Draw(t, "tombRounds"))
+				m.Flags["countedTombstone"] = true
+			}
 			ns := m.tick()
 			if rapid.IntRange(0, 4).Draw(t, "staleTomb") == 0 {
 				ns = int64(1700000000)*1e9 + int64(m.step)
